@@ -430,11 +430,54 @@ func mixedStrategy(cm comparator) [][2]string {
 		if classOrdered {
 			continue
 		}
+		// what the mixed case does, read off the control flow (not the syntax): captured variables written
+		// on the paths that leave the condition on its "not both" side
 		mixed := "falls through"
-		if w := writesIn(mixedBranch); len(w) > 0 {
-			mixed = "sets " + strings.Join(w, ",")
+		{
+			fg := NewFGraph(cm.body, cm.info)
+			wantTruth := bothBranch == ast.Node(is.Else) // LOR form: the mixed side is the true side
+			isConj := map[ast.Expr]bool{}
+			for _, cj := range conj {
+				isConj[ast.Unparen(cj)] = true
+			}
+			isConj[ast.Unparen(is.Cond)] = true
+			var starts []int
+			for _, nd := range fg.Nodes {
+				for _, e := range nd.Succ {
+					if e.Cond != nil && isConj[ast.Unparen(e.Cond)] && e.Truth == wantTruth && within(is, e.Cond.Pos()) {
+						starts = append(starts, e.To)
+					}
+				}
+			}
+			wr := map[string]bool{}
+			seen := map[int]bool{}
+			for len(starts) > 0 {
+				id := starts[len(starts)-1]
+				starts = starts[:len(starts)-1]
+				if seen[id] {
+					continue
+				}
+				seen[id] = true
+				nd := fg.Nodes[id]
+				if nd.N != nil {
+					for _, w := range writesIn(nd.N) {
+						wr[w] = true
+					}
+				}
+				for _, e := range nd.Succ {
+					starts = append(starts, e.To)
+				}
+			}
+			var ws []string
+			for w := range wr {
+				ws = append(ws, w)
+			}
+			sort.Strings(ws)
+			if len(ws) > 0 {
+				mixed = "sets " + strings.Join(ws, ",")
+			}
 		}
-		construct := fmt.Sprintf("per-pair strategy under %s; mixed case %s", exprStr(is.Cond), mixed)
+		construct := "per-pair strategy; mixed case " + mixed
 		which := "when " + exprStr(is.Cond) + " (a condition on both arguments)"
 		if bothBranch == is.Else {
 			which = "when " + exprStr(is.Cond) + " is false (a condition on both arguments)"
@@ -672,6 +715,11 @@ func c03SingleSampler(c *Ctx, r *Report) {
 		why := ""
 		if fd != nil && p.PkgPath == "rare/cmd/helpers" && fd.Name.Name == "RunAggregationLoop" {
 			okSite, why = true, "inside RunAggregationLoop (mutex checked by C03-a/exclusion)"
+		}
+		if fd != nil && !okSite && p.PkgPath == "rare/cmd/helpers" {
+			if own := privateOwner(p, fd); own != nil && own.Name.Name == "RunAggregationLoop" {
+				okSite, why = true, "inside a helper that only RunAggregationLoop calls (mutex checked by C03-a/exclusion on the expanded program)"
+			}
 		}
 		for fl := range render {
 			if within(fl, call.Pos()) {
